@@ -239,8 +239,12 @@ func e2eRateComponent(r *hx.Run) {
 			res := runSX(nil, 120*time.Second, args...)
 			lab.settle(50 * time.Millisecond)
 			frames, ts := lab.takeStamped()
+			isTarget := map[string]bool{}
+			for _, t := range targets {
+				isTarget[fmt.Sprintf("4:%d", t)] = true
+			}
 			for j, f := range frames {
-				if _, ok := frameView(c.kind, f); ok {
+				if v, ok := frameView(c.kind, f); ok && isTarget[strings.SplitN(v, ",", 2)[0]] {
 					stamps = append(stamps, ts[j])
 				}
 			}
@@ -333,7 +337,9 @@ func e2eDelayComponent(r *hx.Run) {
 		for probe == nil && time.Now().Before(deadline) {
 			frames, ts := lab.peek()
 			for j, f := range frames {
-				if _, ok := frameView(c.kind, f); ok {
+				// the probe for THIS target (the kernel itself sends ARP requests for earlier targets after
+				// it has answered an injected reply with a RST)
+				if v, ok := frameView(c.kind, f); ok && strings.HasPrefix(v, fmt.Sprintf("4:%d,", target)) {
 					probe, tLast = f, ts[j]
 				}
 			}
@@ -372,7 +378,11 @@ func e2eDelayComponent(r *hx.Run) {
 					rep++
 				}
 			}
-			obs = fmt.Sprintf("rep=%d|exit=%d;inj=%d", rep, (f.at-tLast)/1000, injected/1000)
+			injUs := int64(-1) // not injected (the process was already gone)
+			if injected >= 0 {
+				injUs = injected / 1000
+			}
+			obs = fmt.Sprintf("rep=%d|exit=%d;inj=%d", rep, (f.at-tLast)/1000, injUs)
 		}
 		r.Count("cmd:" + strings.Join(c.sub, " "))
 		r.Case(fmt.Sprintf("%s/d%d/inj%d", strings.Join(c.sub, " "), delayMs, injPct), "e2edelay", strings.Join(c.sub, "_"), fmt.Sprint(delayMs), fmt.Sprint(injPct), obs)
